@@ -19,7 +19,7 @@ SPEC['C02'] = ('Top-down build does no unnecessary work', ['Local', 'Local2', 'H
   ('C02_consistent_dep_continues', 'Local', 'check_deps_consistent', 'a dependency reported Consistent by its own checker does not stop validation'),
   ('C02_validation_in_order', 'Local', 'check_deps_app', 'dependencies are validated left to right in the recorded (creation) order: a consistent prefix is skipped over'),
 ], 'PARTIAL for the last clause (executed set is a subset of a from-scratch build for exact checkers): decided by correspondence + oracle.')
-SPEC['C03'] = ('Bottom-up build leaves every known task up to date', ['Local2', 'Findings', 'BuDone', 'BuJust', 'ExecInv', 'Cert', 'Stable', 'NoAbort', 'Valid', 'Sim', 'C01Witness', 'OnceAll', 'UpToDate', 'UpToDateWitness'], [
+SPEC['C03'] = ('Bottom-up build leaves every known task up to date', ['Local2', 'Findings', 'BuDone', 'BuJust', 'ExecInv', 'Cert', 'Stable', 'NoAbort', 'Valid', 'Sim', 'C01Witness', 'OnceAll', 'UpToDate', 'UpToDateWitness', 'GoodHist'], [
   ('C03_witness_premises', 'UpToDateWitness', 'C03_witness_premises', 'non-vacuity of the two theorems above: for the generator/consumer instance of C01Witness.v (static class, exact = reflexive checkers), after a session that built both tasks every recorded dependency is consistent (AllValid, decided by the verified checker allvalidb), the generator input is then changed and reported'),
   ('C03_witness_does_real_work', 'UpToDateWitness', 'C03_witness_does_real_work', '... the bottom-up build re-executes the generator and the consumer (newest first [0; 1]), stores the new output 211, and requiring the consumer in a new session returns 211'),
   ('C03_every_scheduled_task_is_executed', 'BuDone', 'bottom_up_executes_all_scheduled', 'partial, GLOBAL: for ALL programs, checkers, fuel, worlds and change sets, in a bottom-up build that completes every scheduling event of a task is followed (later in the event stream) by an execution start of that task: nothing that was found affected -- directly by a reported change, or indirectly by the output or writes of a task executed in the build -- is left unexecuted (the build ends with an empty queue)'),
@@ -293,6 +293,49 @@ RAW['C03'] = [
   | OutOfFuel => True
   end""",
    'intros gen wck ord RC OC P sf always HS HWF HWO HRefl HReflO fuel h edits ch. exact (bottom_up_restores_validity gen wck ord RC OC P sf HS HWF HWO HRefl HReflO always fuel h edits ch).'),
+]
+
+RAW['C03'] += [
+  ('C03_complete_same_session',
+   'the same for requires issued in the SAME session, right after update_affected_tasks (the session keeps the consistent set the build left): nothing is executed (the events added contain no execution), the values are those of a from-scratch session on the current resources, the resources are unchanged',
+   TOTAL_BINDERS + """  (forall c env r v, rc_check (RC c) env r v (sf c r v) = Consistent) ->
+  (forall c o, oc_check (OC c) o (oc_stamp (OC c) o) = true) ->
+  (forall c env r v v', rc_check (RC c) env r v' (sf c r v) = Consistent -> rc_view (RC c) v' = rc_view (RC c) v) ->
+  (forall c env r v v', wck c -> rc_check (RC c) env r v' (sf c r v) = Consistent -> v' = v) ->
+  (forall c o o', oc_check (OC c) o' (oc_stamp (OC c) o) = true -> oc_view (OC c) o' = oc_view (OC c) o) ->
+  forall fuel fuel0 h edits ch ops,
+  let wh := snd (run_history RC OC P always fuel init_world h) in
+  let w1 := snd (run_history RC OC P always fuel wh (edits_of edits)) in
+  AllValid RC OC wh -> (forall r, get_content w1 r <> get_content wh r -> In r ch) -> roots_below ord fuel ops -> roots_below ord fuel0 ops ->
+  match session_bottom_up RC OC P fuel (new_session w1) ch with
+  | Done _ w' =>
+      (forall t, In t (roots ops) -> get_task_output w' t <> None) ->
+      let ra := run_session RC OC P always fuel w' ops in
+      let rb := run_session RC OC P always fuel0 (new_session (fresh_of w')) ops in
+      (exists seg, trace (snd ra) = rev seg ++ trace w' /\\ execs seg = []) /\\ fst ra = fst rb /\\ Forall is_done (fst rb) /\\
+      forall r, get_content (snd ra) r = get_content (snd rb) r
+  | Abort _ _ => False
+  | OutOfFuel => True
+  end""",
+   'intros gen wck ord RC OC P sf always HS HWF HWO HRefl HReflO HC HW HOC fuel fuel0 h edits ch ops. exact (bottom_up_then_require_same_session gen wck ord RC OC P sf HS HWF HWO HRefl HReflO always HC HW HOC fuel fuel0 h edits ch ops).'),
+  ('C03_first_build_all_valid',
+   'the premise AllValid is established by the first build: after any external edits and a first session of requires on an instance that has built nothing yet, every recorded dependency of every task with an output is consistent (static class, reflexive checkers)',
+   TOTAL_BINDERS + """  (forall c env r v, rc_check (RC c) env r v (sf c r v) = Consistent) ->
+  (forall c o, oc_check (OC c) o (oc_stamp (OC c) o) = true) ->
+  forall fuel edits ops, roots_below ord fuel ops ->
+  AllValid RC OC (snd (run_history RC OC P always fuel init_world (edits_of edits ++ [HSession ops])))""",
+   'intros gen wck ord RC OC P sf always HS HWF HWO HRefl HReflO fuel edits ops. exact (first_session_AllValid gen wck ord RC OC P sf always HS HWF HWO HRefl HReflO fuel edits ops).'),
+  ('C03_change_then_bottom_up_keeps_all_valid',
+   '... and is re-established by every batch of external changes followed by a bottom-up build that is told about every changed resource and completes: AllValid is an invariant of the usage "build once, then report every change bottom-up"',
+   TOTAL_BINDERS + """  (forall c env r v, rc_check (RC c) env r v (sf c r v) = Consistent) ->
+  (forall c o, oc_check (OC c) o (oc_stamp (OC c) o) = true) ->
+  forall fuel h edits ch,
+  let wh := snd (run_history RC OC P always fuel init_world h) in
+  let w1 := snd (run_history RC OC P always fuel wh (edits_of edits)) in
+  AllValid RC OC wh -> (forall r, get_content w1 r <> get_content wh r -> In r ch) ->
+  (exists u w', session_bottom_up RC OC P fuel (new_session w1) ch = Done u w') ->
+  AllValid RC OC (snd (run_history RC OC P always fuel init_world (h ++ edits_of edits ++ [HSession [SBottomUp ch]])))""",
+   'intros gen wck ord RC OC P sf always HS HWF HWO HRefl HReflO fuel h edits ch. exact (change_then_bottom_up_keeps_AllValid gen wck ord RC OC P sf always HS HWF HWO HRefl HReflO fuel h edits ch).'),
 ]
 
 RAW['C04'] = [
